@@ -1,4 +1,5 @@
 import TD.C15.Lemmas
+import TD.C15.ParseLemmas
 
 /-!
 # C15 — Frame slice and sample selectors select what they say
@@ -244,6 +245,33 @@ theorem parse_sample_iff (cs : List Char) (hc : cs.contains ',' = false) (sel : 
   · rintro ⟨v, hv, h1, rfl⟩
     have : ¬ v < 1 := by omega
     simp [hv, this]
+
+/-- **Option string round trip (slice)**: the canonical text of a slice selector — each part the decimal integer,
+or absent printed as the empty string or as `None` (any of the 8 choices) — parses to the selector it denotes. -/
+theorem parse_print_slice (a b c : Option Int) (ua ub uc : Bool) :
+    parseSelector (partChars ua a ++ ',' :: (partChars ub b ++ ',' :: partChars uc c)) = .ok (.slice a b c) := by
+  have hc : ',' ∈ partChars ua a ++ ',' :: (partChars ub b ++ ',' :: partChars uc c) := by simp
+  unfold parseSelector
+  simp only [List.contains_eq_mem, hc, decide_true, if_true]
+  rw [splitOnComma_three _ _ _ (partChars_no_comma ua a) (partChars_no_comma ub b) (partChars_no_comma uc c)]
+  simp [partsAll, convertPart_partChars]
+
+/-- **Option string round trip (sample)**: the decimal text of `N ≥ 1` parses to `Sample(N)`. -/
+theorem parse_print_sample (n : Nat) (hn : 1 ≤ n) :
+    parseSelector (Nat.toDigits 10 n) = .ok (.sample n) := by
+  have hi : intChars (n : Int) = Nat.toDigits 10 n := by
+    have : ¬ ((n : Int) < 0) := by omega
+    simp [intChars, this]
+  have hc : ¬ ',' ∈ Nat.toDigits 10 n := by
+    have := intChars_no_comma (n : Int)
+    rwa [hi] at this
+  have hp : pyInt (Nat.toDigits 10 n) = some (n : Int) := by
+    have := pyInt_intChars (n : Int)
+    rwa [hi] at this
+  unfold parseSelector
+  simp only [List.contains_eq_mem, hc, decide_false, Bool.false_eq_true, if_false, hp]
+  have : ¬ ((n : Int) < 1) := by omega
+  simp [this]
 
 /-! ## Non-vacuity: the hypotheses are met by concrete, non-trivial instances. -/
 
